@@ -7,6 +7,7 @@ import Swat4.Properties.C11
 import Swat4.Lemmas.TimedInv
 import Swat4.Lemmas.CleanRace
 import Swat4.Model.CleanerComponent
+import Swat4.Lemmas.UseCaseMore
 /-!
 # C14 — Servers expire by the clock: fresh ones are never cleaned, stale ones are
 
@@ -1143,5 +1144,56 @@ example : RefInv (⟨W.state, 10, []⟩ : USys).abs (⟨W.state, 10, []⟩ : USy
       rw [(cleaner_faulted_pass 500 100 ⟨W.state, 10, []⟩).2.1]; exact W.state_at
     rw [show [false, true] = [false] ++ [true] from rfl, cleanerPasses_append]
     exact (cleaner_healthy_pass_complete 500 100 _ h1.1 h1.2.1).2.2.1 W.A.key _ hold (by decide)
+
+/-! ## the programs `usecases_walk_on_moving_clock` left out (third outside review, item 6) -/
+
+/-- **`usecases_walk_on_moving_clock`, the two remaining client programs.**  The `TPres` list is written by hand; two programs
+the drivers run as clients of the system model were not in it: `Heartbeat6.renewIP` (the keepalive with the request's `net.IP`
+as it is, run by the `dg6` op: it reads the clock and refreshes the stored record at that value) and the prober runner
+`UC.proberRunWith` / `UC.proberRun` (`PopMany(n)`, then `UC.probe` for every popped probe — the `pop|<n>|<outcome>` client).
+Both walk on a moving clock from any `T`, so `refLeUpd_usys` (whose hypothesis is `TPres` of every client's program) covers
+systems that contain them. -/
+theorem usecases_walk_on_moving_clock_more (T : Int) :
+    (∀ i ip, TimedInv.TPres T (Heartbeat6.renewIP i ip)) ∧
+    (∀ n oc order, TimedInv.TPres T (UC.proberRunWith n oc order)) ∧
+    (∀ n outcome, TimedInv.TPres T (UC.proberRun n outcome)) :=
+  ⟨UseCaseMore.renewIP_tpres T, UseCaseMore.proberRunWith_tpres T, fun n o => UseCaseMore.proberRunWith_tpres T n _ _⟩
+
+/-! ## witness for `clean_race_run_lazy` (third outside review, item 7) -/
+
+/-- non-vacuity of `clean_race_run_lazy`'s hypotheses, and the theorem at work: the cleaner (retention 10) is client 0 and has
+NOT begun; A's record (written at 10) is stale for a pass at clock 100.  Its first scheduling reads the clock (cutoff 90) and
+scans, its second fetches A's copy; a keepalive (client 1, three calls) then refreshes A at 100.  All hypotheses hold — the
+cleaner is `rendered (cleanServers2 10)`, not started, not dead; the store is keyed; the other client is `ProgStable`; the
+events in between never crash or fault the cleaner — and the theorem's second conclusion, applied to the state `v` reached,
+says that A's refreshed row (refreshed at 100 > 90) survives the cleaner's next step: the removal is refused. -/
+example :
+    let s0 : AbsState := { W.state with instances := (∅ : ExtTreeMap Nat (Addr × Int)).insert 7 (W.A, 10) }
+    let c0 : UClient := { prog := C13Run.rendered (cleanServers2 10) (fun _ => "ok"), started := false }
+    let u : USys := { abs := s0, clock := 100, clients := [c0, { prog := (UC.renew 7 1).bind fun _ => pure "ok", started := true }] }
+    let v : USys := (((u.step (.call 0)).run []).step (.call 0)).run [.call 1, .call 1, .call 1]
+    u.clients[0]? = some c0 ∧ c0.started = false ∧ c0.dead = false ∧ Keyed u.abs ∧
+    (∀ (j : Nat) (c' : UClient), j ≠ 0 → u.clients[j]? = some c' → VerMono.ProgStable c'.prog) ∧
+    (∀ e ∈ [UEv.call 1, UEv.call 1, UEv.call 1], CleanRace.EvC 0 e) ∧
+    (∃ row, v.abs.servers[W.A.key]? = some row ∧ row.svr.refreshedAt = some 100 ∧
+      (v.step (.call 0)).abs.servers[W.A.key]? = some row) := by
+  intro s0 c0 u v
+  have hcl : ∀ (j : Nat) (c' : UClient), j ≠ 0 → u.clients[j]? = some c' → VerMono.ProgStable c'.prog := by
+    intro j c' hj hc'
+    match j, hj with
+    | 1, _ =>
+      have : c' = { prog := (UC.renew 7 1).bind fun _ => pure "ok", started := true } := by
+        simp only [u, List.getElem?_cons_succ, List.getElem?_cons_zero, Option.some.injEq] at hc'; exact hc'.symm
+      subst this
+      exact VerMono.AllCalls.bind (VerMono.renew_stable 7 1) fun _ => VerMono.AllCalls.pure _
+    | j + 2, _ => simp [u] at hc'
+  have hes : ∀ e ∈ [UEv.call 1, UEv.call 1, UEv.call 1], CleanRace.EvC 0 e := by
+    intro e he
+    simp only [List.mem_cons, List.not_mem_nil, or_false, or_self] at he
+    subst he; trivial
+  have hrow : v.abs.servers[W.A.key]? = some ⟨{ W.fresh with refreshedAt := some 100, version := 5 }, 100⟩ := by decide
+  have h := clean_race_run_lazy u 0 c0 (fun _ => "ok") 10 rfl rfl rfl rfl W.state_keyed hcl [] [.call 1, .call 1, .call 1]
+    (fun e he => nomatch he) hes v rfl
+  exact ⟨rfl, rfl, rfl, W.state_keyed, hcl, hes, _, hrow, rfl, h.2.1 W.A.key _ 100 hrow rfl (by decide)⟩
 
 end Swat4.C14
